@@ -28,8 +28,32 @@ SEEDS = {
     "C28": ("C28", "energy() with per_tensor=True on a result with non-zero leak power", ["C28"]),
     "C29": ("C29", "'default' listed before an Einsum's own top-level entry, a name defined in both, not overridden locally", ["C29"]),
     "C30": ("C30", "mesh, unicast (Relevant) loop, odd fanout >= 3", ["C30"]),
+    "C02": ("C02", "ENERGY|LATENCY (two varying objective columns, no RESOURCE_USAGE) and two front candidates that tie exactly on energy but differ in latency", ["C02"]),
+    "C04": ("C04", ">= 2 returned rows sharing a pmapping template with different tile shapes, rebuilt in the same process (eval_in_detail=False, or serial eval_in_detail=True)", ["C04"]),
+    "C09": ("C09", "a formula whose derivative in the chosen symbol is provably >= 0 but not provably > 0 (e.g. a*(b-1) - 3)", ["C09"]),
+    "C14": ("C14", "metrics without RESOURCE_USAGE, a buffer between the largest single-Einsum footprint and the sum of footprints, and a tensor live across an Einsum that does not use it", ["C14"]),
+    "C16": ("C16", "objective_tolerance > 0 and two pmappings of one Einsum whose energies differ by a ratio in (1+t, (1+t)^1.44]", ["C16"]),
+    "C17": ("C17", "ENERGY_DELAY_PRODUCT metric, >= 2 Einsums, a dirty pre-join that prunes something (two cooperating edits)", ["C17"]),
+    "C18": ("C18", "imperfect factorisation enabled and a perfect-square rank size whose optimum uses the square-root tile shape", ["C18"]),
+    "C19": ("C19", "workload.n_instances > 1 together with non-zero leak power", ["C19"]),
+    "C20": ("C20", "cache_dir given, a cache populated by a run that differs only in mapper.max_pmapping_templates_per_einsum", ["C20"]),
+    "C22": ("C22", "a multi-Einsum workload and an arch set expression applying ~ to a tensor name the evaluated Einsum does not use", ["C22"]),
     "C32": ("C32", "dict input, n_jobs >= 2, >= 2 jobs, at least one job completing before an earlier-submitted one", ["C32"]),
 }
+
+
+def batch_result(sid):
+    """Which batch run of the repository's test suite included this seed and what it showed."""
+    for b in sorted((ROOT / "seeded").glob("batch-*.log")):
+        t = b.read_text()
+        head = t.splitlines()[0] if t else ""
+        if f" {sid} " in head + " " or head.rstrip().endswith(" " + sid):
+            m = re.search(r"stable_pass=(\d+) passed=(\d+)", t)
+            rer = re.search(r"re-running regressed stable tests individually.*?\n(.*)$", t, re.S)
+            return {"batch_log": b.name, "seeds_applied_together": head.split("seeds")[1].split(" on ")[0].split() if "seeds" in head else [],
+                    "stable_pass_total": int(m.group(1)) if m else None, "stable_pass_passed": int(m.group(2)) if m else None,
+                    "rerun_of_regressed_tests": rer.group(1).strip().splitlines()[-1] if rer else None}
+    return None
 
 
 def main():
@@ -53,7 +77,7 @@ def main():
                 "command": f"mc/confirm_seed.sh {sid}",
                 "demo_exit_with_change": int(m1.group(1)) if m1 else None,
                 "demo_exit_without_change": int(m2.group(1)) if m2 else None,
-                "repo_tests_stable_pass": {"total": int(m3.group(1)), "passed": int(m3.group(2))} if m3 else None,
+                "repo_tests": batch_result(sid),
             },
             "detected_by": det.get(sid, {}),
             "how_to_run_checks_against_it": f"mc/seedtest.sh {sid} <check-id>   (or: git -C /repo apply seeded/{sid}/patch.diff; ./check <id>; git -C /repo checkout -- .)",
